@@ -7,7 +7,7 @@
 //
 //   case <id>                      -> "case <id>"      (flushes a pending history first)
 //   cfg <fn> <ndx>                 -> "ok" | "bad-op"
-//        fn : inc | acc | addidx | echo1 | echo2 | echo3 | echov | even | neg | addb | pair
+//        fn : inc | acc | addidx | echo1 | echo2 | echo3 | echov | even | neg | addb | bmod | pair
 //             inc     stateless           out = v + 1
 //             acc     stateful            out = running sum of the ticks
 //             addidx  index-consuming     out = v + 1000 * ndx                       (needs ndx = 1)
@@ -17,6 +17,8 @@
 //             even    sometimes invalid   out = v only when v is even
 //             neg     throwing            throws on v < 0, else out = running sum
 //             addb    broadcast argument  out = v + z            (z: a TS<Int> bound whole to every child)
+//             bmod    broadcast argument  out = v + z only in the cycles in which z is MODIFIED for the child (a tick of z,
+//                                         or the child's first cycle: the broadcast is sampled at the child's start)
 //             pair    two multiplexed dynamic lists of differing lengths: out = a[i] + 1000 * b[i]
 //        ndx: 0 | 1   the function takes the list index as first argument `ndx` (a tag node then maps every child
 //                     graph to its index, so lifecycle / evaluation events are printed per index)
@@ -158,6 +160,15 @@ namespace
         static void eval(In<"ts", TS<Int>> ts, In<"z", TS<Int>> z, Out<TS<Int>> out) { out.set(ts.value() + z.value()); }
     };
 
+    struct TBMod
+    {
+        static constexpr auto name = "hgvt_bmod";
+        static void eval(In<"ts", TS<Int>> ts, In<"z", TS<Int>> z, Out<TS<Int>> out)
+        {
+            if (z.modified()) { out.set(ts.value() + z.value()); }
+        }
+    };
+
     struct TPair
     {
         static constexpr auto name = "hgvt_pair";
@@ -218,6 +229,21 @@ namespace
         }
     };
 
+    struct GBMod
+    {
+        static constexpr auto name = "hgvt_g_bmod";
+        static P compose(Wiring &w, P ts, P z) { return wire<TBMod>(w, ts, z); }
+    };
+    struct GBModN
+    {
+        static constexpr auto name = "hgvt_n_bmod";
+        static P compose(Wiring &w, NP ndx, P ts, P z)
+        {
+            wire<TTag>(w, ndx);
+            return wire<TBMod>(w, ts, z);
+        }
+    };
+
     struct GPair
     {
         static constexpr auto name = "hgvt_g_pair";
@@ -242,7 +268,7 @@ namespace
 
     bool fn_known(const std::string &f)
     {
-        static const std::set<std::string> k{"inc", "acc", "addidx", "echo1", "echo2", "echo3", "echov", "even", "neg", "addb", "pair"};
+        static const std::set<std::string> k{"inc", "acc", "addidx", "echo1", "echo2", "echo3", "echov", "even", "neg", "addb", "bmod", "pair"};
         return k.count(f) > 0;
     }
 
@@ -407,7 +433,7 @@ namespace
     // ---- one run ------------------------------------------------------------------------------------------
     std::vector<std::string> run_history(const Cfg &cfg, const std::vector<std::vector<Op>> &cycles)
     {
-        const bool bcast = cfg.fn == "addb";
+        const bool bcast = cfg.fn == "addb" || cfg.fn == "bmod";
         const bool two   = cfg.fn == "pair";
         g_graph_ndx.clear();
 
@@ -417,7 +443,8 @@ namespace
         if (bcast)
         {
             auto z = wire<stdlib::replay_impl, TS<Int>>(w, Str{"hgv::z"});
-            m      = wire<stdlib::map_>(w, cfg.ndx ? fn<GAddBN>() : fn<GAddB>(), a, z).as<IntList>();
+            m      = cfg.fn == "bmod" ? wire<stdlib::map_>(w, cfg.ndx ? fn<GBModN>() : fn<GBMod>(), a, z).as<IntList>()
+                                      : wire<stdlib::map_>(w, cfg.ndx ? fn<GAddBN>() : fn<GAddB>(), a, z).as<IntList>();
         }
         else if (two)
         {
